@@ -36,6 +36,7 @@ def units(tier):
     for q in ("identity", "_get_dict", "ismsm", "_do_unknown", "serialize", "payload"):
         us += func_units(f"{M}.{q}", tier)
     us += func_units(f"{M}._do_attributes", tier, only=lambda inst: inst["identity"].startswith("unknown"))
+    us += func_units(f"{M}.__init__", tier)  # a payload that carries a message number is never refused by the constructor's guard
     us.append(ground_unit("C15.table_lemmas", table_lemmas))
     from pyvc import clientrun
     us.append(clientrun.unit("stub_serializes_to_same_frame", clientrun.lemma_parse_serialize))
